@@ -173,6 +173,76 @@ theorem Kernel.transpose_fw_writes_all {x ys : Shape} {m : Moves} (hx : WF x)
   rw [hm, hys]
   exact transpose_writes (hx.pos 0) (hx.pos 1)
 
+/-- transpose_bw (Naive: `inplace_add_impl(transpose_fw(gy), gx)`): both loop nests in bounds -/
+theorem Kernel.transpose_bw_in_bounds {x y gy gx ts : Shape} {mt : Moves} (hx : WF x) (hy : WF y) (hgy : WF gy)
+    (hgx : WF gx) (hG : Front.transposeBwGuard x y gy gx = .ok ()) (hT : Front.transposeFw gy = .ok (ts, mt)) :
+    mt.InBounds gy.size ts.size ∧
+    (inplaceAddMoves gx.volume (max ts.batch gx.batch) (b2n gx.hasBatch * gx.volume)
+      (b2n ts.hasBatch * gx.volume)).InBounds ts.size gx.size := by
+  refine ⟨Kernel.transpose_fw_in_bounds hgy hT, ?_⟩
+  unfold Front.transposeBwGuard at hG
+  split at hG
+  · cases hG
+  rename_i hc
+  simp only [Bool.or_eq_true, not_or] at hc
+  have c1 := not_not_eq hc.1
+  have c2 := not_not_eq hc.2
+  cases hS : ShapeOps.transpose x with
+  | error e => simp [hS, bind, Except.bind] at hG
+  | ok s =>
+  simp only [hS, bind, Except.bind] at hG
+  split at hG
+  · cases hG
+  rename_i hc3
+  have c3 := not_not_eq hc3
+  have ⟨hF, _⟩ : ∃ m, Front.transposeFw x = .ok (s, m) := ⟨_, by unfold Front.transposeFw; simp [hS, bind, Except.bind]; rfl⟩
+  obtain ⟨hmx, _, hsb, s0, s1, _, _, _, _⟩ := transposeFw_plan hx (by assumption)
+  obtain ⟨hmg, hts, htb, t0, t1, _, _, _, htsz⟩ := transposeFw_plan hgy hT
+  have ⟨gxg, gxb⟩ := eq_get c1
+  have ⟨gyg, gyb⟩ := eq_get c2
+  have ⟨ysg, ysb⟩ := eq_get c3
+  have hgxm : gx.isMatrix = true := by
+    unfold Shape.isMatrix Shape.depth at hmx ⊢
+    simp only [decide_eq_true_eq] at hmx ⊢
+    unfold Shape.eq Shape.hasSameDims at c1
+    simp only [Bool.and_eq_true, beq_iff_eq] at c1
+    unfold Shape.depth at c1
+    omega
+  have e0 : gy.get 0 = gx.get 1 := by rw [← gyg, ysg, s0, gxg]
+  have e1 : gy.get 1 = gx.get 0 := by rw [← gyg, ysg, s1, gxg]
+  have eb : gy.batch = gx.batch := by rw [← gyb, ysb, hsb, gxb]
+  have hv : gx.volume = gx.get 0 * gx.get 1 := matrix_volume hgx hgxm
+  rw [htsz, e0, e1, eb, hgx.size_eq, htb, eb, b2n_hasBatch gx hgx, b2n_hasBatch ts hts, htb, eb, hv]
+  have := inplaceAdd_bounds (V := gx.get 0 * gx.get 1) (Bx := gx.batch) (By := gx.batch)
+    (Nat.mul_pos (hgx.pos 0) (hgx.pos 1)) hgx.bpos hgx.bpos (Or.inl rfl)
+  convert this using 2; ring
+
+/-! ### permute_dims (partial) -/
+
+/-- permute_dims_fw reads its operand sequentially (`src[i]`, `i < volume`, per
+sample): all reads are in bounds, for every accepted `perm`. -/
+theorem Kernel.permute_dims_fw_reads_in_bounds_partial {x ys : Shape} {perm : List Nat} {m : Moves} (hx : WF x)
+    (h : Front.permuteFw x perm = .ok (ys, m)) : m.count = x.size ∧ ∀ t, t < m.count → m.sidx t < x.size := by
+  unfold Front.permuteFw at h
+  cases hS : ShapeOps.permuteDims x perm with
+  | error e => simp [hS, bind, Except.bind] at h
+  | ok y =>
+    simp only [hS, bind, Except.bind, pure, Except.pure, Except.ok.injEq, Prod.mk.injEq] at h
+    obtain ⟨rfl, rfl⟩ := h
+    have : (permuteFwMoves x.volume x.batch (permStrides x y perm)).count = x.size := by
+      simp only [permuteFwMoves]; rw [hx.size_eq, Nat.mul_comm]
+    exact ⟨this, fun t ht => by rw [this] at ht; exact ht⟩
+
+/-- Unfinished: the write indices of permute_dims_fw (`dest[j]`, `j` the
+mixed-radix re-encoding `permJ` of `i`) are in bounds and hit every output
+element exactly once, and likewise the read indices of permute_dims_bw
+(`pgy[j]`).  What is missing is the bijectivity of `permJ` (digits of `i` in the
+radix of `x`, re-weighted by the strides of `y`), by induction on the number of
+axes.  Exercised by the correspondence run on both backends (ASan + canaries). -/
+def Kernel.permute_dims_in_bounds_full : Prop :=
+  ∀ (x ys : Shape) (perm : List Nat) (m : Moves), WF x → Front.permuteFw x perm = .ok (ys, m) →
+    m.InBounds x.size ys.size ∧ m.WritesAll ys.size ∧ m.WritesOnce
+
 /-! ### batch kernels -/
 
 theorem Kernel.batch_pick_fw_in_bounds {x ys : Shape} {ids : List Nat} {m : Moves} (hx : WF x) (hlen : ids.length < W)
